@@ -1,10 +1,10 @@
 #!/bin/sh
 # tools/run_all.sh [quick|thorough] [ids...] — run every claimed check once on /repo's working tree, one line per check
 TIER=${1:-quick}; shift
-cd /verif
+cd "$(dirname "$0")/.."
 IDS=${*:-$(python3 -c "import json;print(' '.join(c['property_id'] for c in json.load(open('MANIFEST.json'))['checks']))")}
 for P in $IDS; do
   S=$(date +%s)
-  ./check $P --tier $TIER > /tmp/runall-$P.log 2>&1; RC=$?
-  echo "$P exit=$RC $(( $(date +%s) - S ))s $(grep -cE '^VIOLATION' /tmp/runall-$P.log) violations $(grep -cE '^KNOWN-FINDING' /tmp/runall-$P.log) known | $(tail -1 /tmp/runall-$P.log | cut -c1-150)"
+  ./check $P --tier $TIER > runall-$TIER-$P.log 2>&1; RC=$?
+  echo "$P exit=$RC $(( $(date +%s) - S ))s $(grep -cE '^VIOLATION' runall-$TIER-$P.log) violations $(grep -cE '^KNOWN-FINDING' runall-$TIER-$P.log) known | $(tail -1 runall-$TIER-$P.log | cut -c1-150)"
 done
